@@ -1018,3 +1018,186 @@ Proof.
   intros tol P P' Hnp Hd s' Hin. apply dedup_inv in Hd. destruct Hd as [del [m [s2 [_ [Hm ->]]]]].
   simpl in Hin. apply remove_all_incl in Hin. eapply sup_all_perptr0; eauto.
 Qed.
+
+(* ========================================================================= the map, as the cells receive it *)
+Theorem map_justified : forall tol P del m,
+  scan tol (p_surfs P) = Ok (del, m) ->
+  (forall n, In n del <-> lookup n m <> None) /\
+  (forall d s, lookup d m = Some s ->
+     exists sd ss, In sd (p_surfs P) /\ In ss (p_surfs P) /\ s_num sd = d /\ s_num ss = s /\
+                   s_num sd <> s_num ss /\ s_type sd = s_type ss /\ candidate tol ss sd = Ok true).
+Proof.
+  intros tol P del m Hs. destruct (scan_inv_basic _ _ _ _ Hs) as [Hk Hj]. split; [exact Hk|].
+  intros d s Hl. destruct (Hj d s Hl) as [sd [ss [H1 [H2 [H3 [H4 H5]]]]]].
+  exists sd, ss. repeat split; auto.
+  - exact (candidate_num_neq _ _ _ H5).
+  - exact (candidate_type_eq _ _ _ H5).
+Qed.
+
+(* with a symmetric test a survivor is never removed itself: chains a~b~c need no second pass *)
+Theorem survivors_survive : forall tol P del m,
+  wf P -> cand_sym tol (p_surfs P) -> scan tol (p_surfs P) = Ok (del, m) ->
+  forall d s, lookup d m = Some s -> ~ In s del.
+Proof.
+  intros tol P del m Hwf Hsym Hs. exact (proj1 (scan_inv_chain _ _ Hwf Hsym _ _ Hs)).
+Qed.
+
+Theorem no_dangling_leaf_struct : forall tol P P' del m,
+  wf P -> links P -> Forall class_ok (p_surfs P) -> planes_old_nonperiodic (p_surfs P) -> tr_uniform (p_surfs P) ->
+  scan tol (p_surfs P) = Ok (del, m) -> dedup tol P = Ok P' ->
+  forall c', In c' (p_cells P') -> forall n, In n (leaf_surfs (c_geom c')) -> ~ In n del.
+Proof.
+  intros tol P P' del m Hwf Hl Hok Hpl Htr. apply no_dangling_leaf; auto. apply cand_sym_struct; assumption.
+Qed.
+
+(* ========================================================================= witnesses: what the current code gets wrong *)
+Local Open Scope string_scope.
+Definition tol4 : Q := 1 # 10000.
+Definition w_px (n : Z) (x : Q) (refl : bool) (oldper per : Z) (oldtr : Z) (tr : option transform) : surface :=
+  mkSurf n CAxisPlane "PX" [x] oldper per refl false oldtr tr.
+Definition w_so (n : Z) : surface := mkSurf n COther "SO" [5%Q] 0 0 false false 0 None.
+Definition w_tr_plain (n : Z) : transform := mkTr n false true [0%Q; 0%Q; 0%Q] [].
+Definition w_tr_rot (n : Z) : transform :=
+  mkTr n false true [0%Q; 0%Q; 0%Q] [0%Q; 1%Q; 0%Q; (-1)%Q; 0%Q; 0%Q; 0%Q; 0%Q; 1%Q].
+Definition w_cells : list cell :=
+  [ mkCell 1 [1; 2] (GAnd (GSurf false 1) (GSurf true 2));
+    mkCell 2 [1; 2; 3] (GAnd (GAnd (GSurf true 1) (GSurf false 2)) (GSurf true 3)) ].
+
+(* `1 px 0` / `*2 px 0` *)
+Definition w_bc : problem :=
+  mkProb [w_px 1 0 false 0 0 0 None; w_px 2 0 true 0 0 0 None; w_so 3] w_cells [].
+(* `1 px 0` / `2 -4 px 0` / `4 -2 px 5` *)
+Definition w_per : problem :=
+  mkProb [w_px 1 0 false 0 0 0 None; w_px 2 0 false 4 4 0 None; w_so 3; w_px 4 5 false 2 2 0 None] w_cells [].
+(* `1 1 px 0` / `2 2 px 0` with tr1 0 0 0, tr2 0 0 0 <rotation by 90 degrees> *)
+Definition w_rot : problem :=
+  mkProb [w_px 1 0 false 0 0 1 (Some (w_tr_plain 1)); w_px 2 0 false 0 0 2 (Some (w_tr_rot 2)); w_so 3] w_cells
+         [w_tr_plain 1; w_tr_rot 2].
+(* `1 2 px 0` / `2 2 px 9e-5` / `3 1 px -9e-5`: 2 -> 1, then 1 -> 3 *)
+Definition w_dangle : problem :=
+  mkProb [w_px 1 0 false 0 0 2 (Some (w_tr_rot 2)); w_px 2 (9 # 100000) false 0 0 2 (Some (w_tr_rot 2));
+          w_px 3 (- 9 # 100000) false 0 0 1 (Some (w_tr_plain 1))]
+         [ mkCell 1 [1; 2] (GAnd (GSurf false 1) (GSurf true 2)) ] [w_tr_plain 1; w_tr_rot 2].
+(* `1 1 px 0` read, then `del surfaces[1].transform`: nothing is merged, the transform comes back *)
+Definition w_revert : problem :=
+  mkProb [w_px 1 0 false 0 0 1 None; w_px 2 1 false 0 0 0 None; w_so 3] w_cells [w_tr_plain 1].
+(* tr1 with nine rotation entries, tr2 with three (MCNP accepts 3, 5, 6 or 9) *)
+Definition w_index : problem :=
+  mkProb [w_px 1 0 false 0 0 1 (Some (w_tr_rot 1));
+          w_px 2 0 false 0 0 2 (Some (mkTr 2 false true [0%Q; 0%Q; 0%Q] [0%Q; 1%Q; 0%Q])); w_so 3] w_cells
+         [w_tr_rot 1; mkTr 2 false true [0%Q; 0%Q; 0%Q] [0%Q; 1%Q; 0%Q]].
+Local Close Scope string_scope.
+
+Ltac in_cases H := simpl in H; repeat (destruct H as [H|H]; [subst|]); try contradiction.
+
+Ltac tr_uniform_tac :=
+  let a := fresh in let b := fresh in let t := fresh in let t' := fresh in
+  let Ha := fresh in let Hb := fresh in let H1 := fresh in let H2 := fresh in
+  intros a b t t' Ha Hb H1 H2; in_cases Ha; in_cases Hb; simpl in H1, H2; try discriminate;
+  inversion H1; inversion H2; subst; split; reflexivity.
+
+Lemma w_class_ok : forall P, In P [w_bc; w_per; w_rot; w_dangle; w_revert; w_index] -> Forall class_ok (p_surfs P).
+Proof. intros P H. in_cases H; repeat constructor. Qed.
+
+Lemma w_wf : forall P, In P [w_bc; w_per; w_rot; w_dangle; w_revert; w_index] -> wf P.
+Proof.
+  intros P H. in_cases H; unfold wf; simpl; repeat constructor; simpl; intuition discriminate.
+Qed.
+
+Definition merged_pair (tol : Q) (P : problem) (sd ss : surface) : Prop :=
+  exists del m, scan tol (p_surfs P) = Ok (del, m) /\ In sd (p_surfs P) /\ In ss (p_surfs P) /\
+                lookup (s_num sd) m = Some (s_num ss).
+
+(* boundary condition is never compared *)
+Theorem only_true_duplicates_refuted_bc : exists tol P sd ss,
+  wf P /\ Forall class_ok (p_surfs P) /\ Forall periodic_visible (p_surfs P) /\ tr_uniform (p_surfs P) /\
+  merged_pair tol P sd ss /\ s_refl ss <> s_refl sd /\ ~ true_dup tol ss sd.
+Proof.
+  exists tol4, w_bc, (w_px 2 0 true 0 0 0 None), (w_px 1 0 false 0 0 0 None).
+  split; [apply w_wf; simpl; auto|]. split; [apply w_class_ok; simpl; auto|].
+  split; [repeat constructor|]. split; [tr_uniform_tac|].
+  split; [exists [2], [(2, 1)]; repeat split; simpl; auto|].
+  split; [simpl; discriminate|]. intros [_ [H _]]. simpl in H. discriminate.
+Qed.
+
+(* AxisPlane (and CylinderParAxis) never look at the other surface's periodicity *)
+Theorem only_true_duplicates_refuted_periodic : exists tol P sd ss,
+  wf P /\ Forall class_ok (p_surfs P) /\ bc_uniform (p_surfs P) /\ tr_uniform (p_surfs P) /\
+  (forall s, In s (p_surfs P) -> in_sync (p_surfs P) (p_trs P) s) /\
+  merged_pair tol P sd ss /\ s_perptr sd <> 0 /\ ~ true_dup tol ss sd.
+Proof.
+  exists tol4, w_per, (w_px 2 0 false 4 4 0 None), (w_px 1 0 false 0 0 0 None).
+  split; [apply w_wf; simpl; auto|]. split; [apply w_class_ok; simpl; auto|].
+  split. { intros a b Ha Hb _. in_cases Ha; in_cases Hb; split; reflexivity. }
+  split; [tr_uniform_tac|].
+  split. { intros s Hs. in_cases Hs; split; simpl; auto; right; split; auto. }
+  split; [exists [2], [(2, 1)]; repeat split; simpl; auto|].
+  split; [simpl; discriminate|]. intros [_ [_ [_ [_ [_ [H _]]]]]]. simpl in H. discriminate.
+Qed.
+
+(* Transform.equivalent ignores the other transform's rotation when self has none *)
+Theorem only_true_duplicates_refuted_rotation : exists tol P sd ss,
+  wf P /\ Forall class_ok (p_surfs P) /\ bc_uniform (p_surfs P) /\ Forall periodic_visible (p_surfs P) /\
+  merged_pair tol P sd ss /\ ~ trdata_same tol (s_tr ss) (s_tr sd) /\ ~ true_dup tol ss sd.
+Proof.
+  exists tol4, w_rot, (w_px 2 0 false 0 0 2 (Some (w_tr_rot 2))), (w_px 1 0 false 0 0 1 (Some (w_tr_plain 1))).
+  split; [apply w_wf; simpl; auto|]. split; [apply w_class_ok; simpl; auto|].
+  split. { intros a b Ha Hb _. in_cases Ha; in_cases Hb; split; reflexivity. }
+  split; [repeat constructor|].
+  split; [exists [2], [(2, 1)]; repeat split; simpl; auto|].
+  assert (Hn : ~ trdata_same tol4 (Some (w_tr_plain 1)) (Some (w_tr_rot 2))).
+  { intros [_ [_ [_ H]]]. unfold rot_full in H. simpl in H. inversion H as [|? ? ? ? H1 _]; subst.
+    vm_compute in H1. discriminate. }
+  split; [exact Hn|]. intros [_ [_ [_ [H _]]]]. exact (Hn H).
+Qed.
+
+(* a survivor removed later: a cell is left pointing at a surface that is no longer in the problem *)
+Theorem no_dangling_leaf_refuted : exists tol P P' del m c' n,
+  wf P /\ links P /\ Forall class_ok (p_surfs P) /\ planes_old_nonperiodic (p_surfs P) /\
+  scan tol (p_surfs P) = Ok (del, m) /\ dedup tol P = Ok P' /\
+  In c' (p_cells P') /\ In n (leaf_surfs (c_geom c')) /\ In n del /\ ~ In n (map s_num (p_surfs P')).
+Proof.
+  exists tol4, w_dangle.
+  eexists. exists [2; 1], [(2, 1); (1, 3)]. eexists. exists 1.
+  split; [apply w_wf; simpl; auto 10|].
+  split. { intros c Hc. in_cases Hc. simpl. intros x Hx. exact Hx. }
+  split; [apply w_class_ok; simpl; auto 10|].
+  split. { intros s Hs _. in_cases Hs; reflexivity. }
+  split; [vm_compute; reflexivity|]. split; [vm_compute; reflexivity|].
+  split; [left; reflexivity|]. split; [simpl; auto|]. split; [simpl; auto|].
+  simpl. intros [H|[]]. discriminate.
+Qed.
+
+(* the pointer re-resolution of the call undoes an earlier edit of a surface that is no duplicate *)
+Theorem survivors_untouched_refuted : exists tol P P' m,
+  wf P /\ Forall class_ok (p_surfs P) /\ scan tol (p_surfs P) = Ok ([], m) /\ dedup tol P = Ok P' /\
+  p_surfs P' <> p_surfs P.
+Proof.
+  exists tol4, w_revert. eexists. exists [].
+  split; [apply w_wf; simpl; auto 10|]. split; [apply w_class_ok; simpl; auto 10|].
+  split; [vm_compute; reflexivity|]. split; [vm_compute; reflexivity|].
+  intro H. inversion H.
+Qed.
+
+(* the surface a periodic surface points to is removed *)
+Theorem no_dangling_periodic_refuted : exists tol P P' s',
+  wf P /\ Forall class_ok (p_surfs P) /\ (forall s, In s (p_surfs P) -> in_sync (p_surfs P) (p_trs P) s) /\
+  dedup tol P = Ok P' /\ In s' (p_surfs P') /\ s_perptr s' <> 0 /\ ~ In (s_perptr s') (map s_num (p_surfs P')).
+Proof.
+  exists tol4, w_per. eexists. exists (w_px 4 5 false 2 2 0 None).
+  split; [apply w_wf; simpl; auto|]. split; [apply w_class_ok; simpl; auto|].
+  split. { intros s Hs. in_cases Hs; split; simpl; auto; right; split; auto. }
+  split; [vm_compute; reflexivity|]. split; [simpl; auto|]. split; [simpl; discriminate|].
+  simpl. intros [H|[H|[H|[]]]]; discriminate.
+Qed.
+
+(* a rotation given by 3 (5, 6) entries against one given by 9: IndexError escapes *)
+Theorem dedup_completes_refuted : exists tol P,
+  wf P /\ Forall class_ok (p_surfs P) /\ (forall s, In s (p_surfs P) -> in_sync (p_surfs P) (p_trs P) s) /\
+  dedup tol P = Err IndexError.
+Proof.
+  exists tol4, w_index.
+  split; [apply w_wf; simpl; auto 10|]. split; [apply w_class_ok; simpl; auto 10|].
+  split. { intros s Hs. in_cases Hs; split; simpl; auto; right; split; try discriminate; reflexivity. }
+  vm_compute. reflexivity.
+Qed.
